@@ -141,6 +141,14 @@ def run(rep, tier):
     g13 = cfgm13.CFG(des13)
     asg13 = [n for n in des13.walk() if n['k'] in ('CXXOperatorCallExpr', 'BinaryOperator') and n.get('op') == '=' and any(
         y['k'] == 'MemberExpr' and y.get('ref', {}).get('name') == '_sessionId' for y in sub(n['c'][-2])) and n['id'] in g13.pos]
+    # ... or through an own helper called from deserialize (an extracted adoptSessionId())
+    for n in des13.walk():
+        cq = n.get('callee', {}).get('q', '')
+        if cq.startswith('uscxml::InterpreterImpl::') and cq not in ('uscxml::InterpreterImpl::init', des13.q) and n['id'] in g13.pos:
+            hf = fb.fn(cq, required=False)
+            if hf is not None and any(x['k'] in ('CXXOperatorCallExpr', 'BinaryOperator') and x.get('op') == '=' and any(
+                    y['k'] == 'MemberExpr' and y.get('ref', {}).get('name') == '_sessionId' for y in sub(x['c'][-2])) for x in hf.walk()):
+                asg13.append(n)
     init13 = [n for n in des13.walk() if n.get('callee', {}).get('q') == 'uscxml::InterpreterImpl::init' and n['id'] in g13.pos]
     before13 = bool(asg13) and bool(init13) and g13.can_reach(g13.pos[asg13[0]['id']], [init13[0]['id']]) is not None and g13.can_reach(g13.pos[init13[0]['id']], [asg13[0]['id']]) is None
     rep.check(writes13 and before13, 'R14.13', 'InterpreterImpl|session id', (locstr(asg13[0]) if asg13 else des13.where()), 'serialize() writes the session id: %s; deserialize() adopts it before init(): %s%s' % (
@@ -151,6 +159,16 @@ def run(rep, tier):
         cls = w.rec
         wk = top_keys(w, 'w')
         rk = top_keys(r, 'r')
+        # keys read by a helper of the same class that gets the state object handed over (an extracted adoptSessionId(state))
+        rroot = root_var(r, 'r')
+        for n in r.walk():
+            cq = n.get('callee', {}).get('q', '')
+            if n['k'] in ('CXXMemberCallExpr', 'CallExpr') and cq.startswith(cls + '::') and cq != r.q and any(
+                    y['k'] == 'DeclRefExpr' and y.get('ref', {}).get('lid') == rroot for a_ in n.get('c', [])[1:] for y in sub(a_)):
+                hf = fb.fn(cq, required=False)
+                if hf is not None and root_var(hf, 'r') is not None:
+                    for kk, vv in top_keys(hf, 'r').items():
+                        rk.setdefault(kk, []).extend(vv)
         w0 = {k for (k, d) in wk if d == 0}
         r0 = {k for (k, d) in rk if d == 0}
         # a serialize() that returns the result of a nested call (facade) has no keys of its own
